@@ -1,0 +1,37 @@
+//! Thin wrappers exposing crate-private functions to the verification harness.
+//!
+//! This module only exists with `--cfg glass_easel_verif`; it adds no behaviour.
+
+pub fn path_resolve(base: &str, rel: &str) -> String {
+    crate::path::resolve(base, rel)
+}
+
+pub fn path_normalize(path: &str) -> String {
+    crate::path::normalize(path)
+}
+
+pub fn gen_lit_str(s: &str) -> String {
+    crate::escape::gen_lit_str(s)
+}
+
+pub fn dash_to_camel(s: &str) -> String {
+    crate::escape::dash_to_camel(s).to_string()
+}
+
+pub fn escape_html_body(s: &str) -> String {
+    crate::escape::escape_html_body(s).to_string()
+}
+
+pub fn escape_html_quote(s: &str) -> String {
+    crate::escape::escape_html_quote(s).to_string()
+}
+
+pub fn entities_decode(entity: &str) -> Option<String> {
+    crate::entities::decode(entity).map(|x| x.to_string())
+}
+
+pub fn get_var_name(var_id: usize) -> String {
+    crate::proc_gen::verif_get_var_name(var_id)
+}
+
+pub use crate::parse::verif_hooks as parse_state;
